@@ -28,6 +28,7 @@ type ScenParams struct {
 	HA   string // PAN-OS
 	Pend int    // PAN-OS
 	NoCh bool   // PAN-OS: commit answers "no changes"
+	Vsys int    // PAN-OS: number of vsys with changes (default 1)
 }
 
 func (p ScenParams) id() string {
@@ -37,8 +38,8 @@ func (p ScenParams) id() string {
 		}
 		return 0
 	}
-	return fmt.Sprintf("%s-a%d-r%d-d%d-y%d-e%d-p%d-w%d-s%d-o%d-t%d-c%d-h%s-P%d-n%d", p.Backend, p.Adds, p.Replaces, p.Dels,
-		b(p.YesNo), b(p.EnablePW), b(p.PagerOff), b(p.Width511), b(p.SaveAsk), b(p.Overwrite), b(p.IPTables), p.Cmds, p.HA, p.Pend, b(p.NoCh))
+	return fmt.Sprintf("%s-a%d-r%d-d%d-y%d-e%d-p%d-w%d-s%d-o%d-t%d-c%d-h%s-P%d-n%d-v%d", p.Backend, p.Adds, p.Replaces, p.Dels,
+		b(p.YesNo), b(p.EnablePW), b(p.PagerOff), b(p.Width511), b(p.SaveAsk), b(p.Overwrite), b(p.IPTables), p.Cmds, p.HA, p.Pend, b(p.NoCh), p.Vsys)
 }
 
 func b2i(b bool) int {
@@ -205,40 +206,40 @@ func linuxScenario(p ScenParams) Scenario {
 }
 
 func panosScenario(p ScenParams) Scenario {
-	dev := `<response status = 'success'>
- <result>
-  <devices>
-   <entry name="localhost.localdomain">
-    <deviceconfig><system><hostname>router</hostname></system></deviceconfig>
-    <vsys>
-     <entry name="vsys1">
-     <display-name>FW7-managed-by-Netspoc</display-name>
-     </entry>
-    </vsys>
-   </entry>
-  </devices>
- </result>
-</response>
-`
-	// Cmds-1 services referenced by one rule: Cmds set commands (Cmds >= 2)
-	var tgt strings.Builder
+	nv := p.Vsys
+	if nv < 1 {
+		nv = 1
+	}
+	var dev strings.Builder
+	dev.WriteString("<response status = 'success'>\n <result>\n  <devices>\n   <entry name=\"localhost.localdomain\">\n")
+	dev.WriteString("    <deviceconfig><system><hostname>router</hostname></system></deviceconfig>\n    <vsys>\n")
+	for v := 1; v <= nv; v++ {
+		fmt.Fprintf(&dev, "     <entry name=\"vsys%d\">\n     <display-name>FW%d-managed-by-Netspoc</display-name>\n     </entry>\n", v, v)
+	}
+	dev.WriteString("    </vsys>\n   </entry>\n  </devices>\n </result>\n</response>\n")
+	// per vsys: Cmds-1 services referenced by one rule: Cmds set commands (Cmds >= 2)
 	nsvc := p.Cmds - 1
 	if nsvc < 1 {
 		nsvc = 1
 	}
-	tgt.WriteString(`<config><devices><entry name="localhost.localdomain"><vsys><entry name="vsys1">` + "\n")
-	tgt.WriteString("<rulebase><security><rules>\n<entry name=\"r1\">\n<action>allow</action>\n<from><member>z1</member></from>\n<to><member>z2</member></to>\n")
-	tgt.WriteString("<source><member>any</member></source>\n<destination><member>any</member></destination>\n<service>")
-	for i := 0; i < nsvc; i++ {
-		fmt.Fprintf(&tgt, "<member>tcp %d</member>", 80+i)
+	var tgt strings.Builder
+	tgt.WriteString(`<config><devices><entry name="localhost.localdomain"><vsys>` + "\n")
+	for v := 1; v <= nv; v++ {
+		fmt.Fprintf(&tgt, "<entry name=\"vsys%d\">\n", v)
+		tgt.WriteString("<rulebase><security><rules>\n<entry name=\"r1\">\n<action>allow</action>\n<from><member>z1</member></from>\n<to><member>z2</member></to>\n")
+		tgt.WriteString("<source><member>any</member></source>\n<destination><member>any</member></destination>\n<service>")
+		for i := 0; i < nsvc; i++ {
+			fmt.Fprintf(&tgt, "<member>tcp %d</member>", 80+10*v+i)
+		}
+		tgt.WriteString("</service>\n<application><member>any</member></application>\n<rule-type>interzone</rule-type>\n</entry>\n</rules></security></rulebase>\n<service>\n")
+		for i := 0; i < nsvc; i++ {
+			fmt.Fprintf(&tgt, "<entry name=\"tcp %d\"><protocol><tcp><port>%d</port></tcp></protocol></entry>\n", 80+10*v+i, 80+10*v+i)
+		}
+		tgt.WriteString("</service>\n</entry>\n")
 	}
-	tgt.WriteString("</service>\n<application><member>any</member></application>\n<rule-type>interzone</rule-type>\n</entry>\n</rules></security></rulebase>\n<service>\n")
-	for i := 0; i < nsvc; i++ {
-		fmt.Fprintf(&tgt, "<entry name=\"tcp %d\"><protocol><tcp><port>%d</port></tcp></protocol></entry>\n", 80+i, 80+i)
-	}
-	tgt.WriteString("</service>\n</entry></vsys></entry></devices></config>\n")
+	tgt.WriteString("</vsys></entry></devices></config>\n")
 	return Scenario{ID: p.id(), Backend: "PAN-OS",
-		HTTP:    &HTTPScen{DeviceXML: dev, HA: p.HA, Pend: p.Pend, CommitMsg: map[bool]string{true: "nochanges", false: ""}[p.NoCh]},
+		HTTP:    &HTTPScen{DeviceXML: dev.String(), HA: p.HA, Pend: p.Pend, CommitMsg: map[bool]string{true: "nochanges", false: ""}[p.NoCh]},
 		Netspoc: map[string]string{"router": tgt.String()},
 		Shape:   map[string]int{"pend": p.Pend, "nochanges": b2i(p.NoCh)}}
 }
